@@ -592,6 +592,8 @@ func (vc *VC) execClosureBody(st *State, lit *ast.FuncLit) {
 // ---------- loops ----------
 
 type loopInfo struct {
+	heapBases   map[string]map[types.Object]bool // heap key -> stable base variables written through
+	heapUnknown map[string]bool                  // heap key written through something else
 	ord      int
 	label    string
 	assigned map[types.Object]bool
@@ -603,7 +605,8 @@ type loopInfo struct {
 
 // syntactic scan of a loop for modified state
 func (vc *VC) scanModified(nodes ...ast.Node) *loopInfo {
-	li := &loopInfo{assigned: map[types.Object]bool{}, heapKeys: map[string]bool{}, globals: map[types.Object]bool{}, ghosts: map[string]bool{}}
+	li := &loopInfo{assigned: map[types.Object]bool{}, heapKeys: map[string]bool{}, globals: map[types.Object]bool{}, ghosts: map[string]bool{},
+		heapBases: map[string]map[types.Object]bool{}, heapUnknown: map[string]bool{}}
 	var markLhs func(e ast.Expr)
 	markLhs = func(e ast.Expr) {
 		switch l := e.(type) {
@@ -629,7 +632,9 @@ func (vc *VC) scanModified(nodes ...ast.Node) *loopInfo {
 			t := vc.typeOf(l.X)
 			if pt, ok := t.Underlying().(*types.Pointer); ok {
 				if n, s := namedStructOf(pt.Elem()); n != nil {
-					li.heapKeys[vc.heapKey(n, s.Field(sel.Index()[0]).Name())] = true
+					key := vc.heapKey(n, s.Field(sel.Index()[0]).Name())
+					li.heapKeys[key] = true
+					vc.noteBase(li, key, l.X)
 					return
 				}
 				li.allHeap = true
@@ -806,7 +811,33 @@ func (vc *VC) loopHead(st *State, li *loopInfo, spec *LoopSpec, pos token.Pos, r
 			if !ok {
 				continue
 			}
+			before := vc.heapGet(st, k, es)
 			st.heap[k] = vc.fresh("H_"+k, "(Array Int "+es+")")
+			// loop frame: when every write to this field inside the loop goes through variables the loop does not assign,
+			// all other objects keep their field
+			if !li.heapUnknown[k] {
+				var conds []string
+				stable := true
+				for o := range li.heapBases[k] {
+					if li.assigned[o] {
+						stable = false
+						break
+					}
+					t, ok := st.locals[o]
+					if !ok {
+						stable = false
+						break
+					}
+					conds = append(conds, fmt.Sprintf("(not (= r %s))", t))
+				}
+				if stable {
+					c := "true"
+					if len(conds) > 0 {
+						c = "(and " + strings.Join(conds, " ") + " true)"
+					}
+					vc.assume(st, fmt.Sprintf("(forall ((r Int)) (! (=> %s (= (select %s r) (select %s r))) :pattern ((select %s r))))", c, st.heap[k], before, st.heap[k]))
+				}
+			}
 		}
 		for g := range li.ghosts {
 			if _, ok := st.ghost[g]; ok {
@@ -1223,7 +1254,9 @@ func (vc *VC) markWritten(e ast.Expr, li *loopInfo) {
 		t := vc.typeOf(l.X)
 		if pt, ok := t.Underlying().(*types.Pointer); ok {
 			if n, s := namedStructOf(pt.Elem()); n != nil {
-				li.heapKeys[vc.heapKey(n, s.Field(sel.Index()[0]).Name())] = true
+				key := vc.heapKey(n, s.Field(sel.Index()[0]).Name())
+				li.heapKeys[key] = true
+				vc.noteBase(li, key, l.X)
 				return
 			}
 			li.allHeap = true
@@ -1271,6 +1304,7 @@ func (vc *VC) contractEffects(ct *Contract, li *loopInfo) {
 					for i := 0; i < s.NumFields(); i++ {
 						if field == "*" || field == s.Field(i).Name() {
 							li.heapKeys[vc.heapKey(n, s.Field(i).Name())] = true
+							li.heapUnknown[vc.heapKey(n, s.Field(i).Name())] = true
 							vc.heapSortEnsure(n, s.Field(i))
 						}
 					}
@@ -1285,6 +1319,7 @@ func (vc *VC) contractEffects(ct *Contract, li *loopInfo) {
 					for i := 0; i < s.NumFields(); i++ {
 						if field == "*" || s.Field(i).Name() == field {
 							li.heapKeys[vc.heapKey(n, s.Field(i).Name())] = true
+							li.heapUnknown[vc.heapKey(n, s.Field(i).Name())] = true
 							vc.heapSortEnsure(n, s.Field(i))
 							found = true
 						}
@@ -1333,6 +1368,7 @@ func (vc *VC) calleeEffects(o *types.Func, li *loopInfo, depth int) {
 	}
 	for k := range sub.heapKeys {
 		li.heapKeys[k] = true
+		li.heapUnknown[k] = true
 	}
 	for g := range sub.globals {
 		li.globals[g] = true
@@ -1340,4 +1376,26 @@ func (vc *VC) calleeEffects(o *types.Func, li *loopInfo, depth int) {
 	for g := range sub.ghosts {
 		li.ghosts[g] = true
 	}
+}
+
+
+// noteBase records through which base expression a heap field is written inside a loop
+func (vc *VC) noteBase(li *loopInfo, key string, base ast.Expr) {
+	for {
+		if p, ok := base.(*ast.ParenExpr); ok {
+			base = p.X
+			continue
+		}
+		break
+	}
+	if id, ok := base.(*ast.Ident); ok {
+		if o, ok := vc.eng.info.ObjectOf(id).(*types.Var); ok && (o.Pkg() == nil || o.Parent() != o.Pkg().Scope()) {
+			if li.heapBases[key] == nil {
+				li.heapBases[key] = map[types.Object]bool{}
+			}
+			li.heapBases[key][o] = true
+			return
+		}
+	}
+	li.heapUnknown[key] = true
 }
